@@ -238,6 +238,14 @@ Proof.
     rewrite (contains_false_index _ _ C2), firstn_len_app, app_nil_r. reflexivity.
 Qed.
 
+(* stripTmuxStatusLine called directly: every status redraw is removed, wherever it was
+   inserted and however many there are; a truncated one at the end goes as well *)
+Theorem strip_status_direct l s : with_status l s -> noesc l = true -> strip_tmux_status s = l.
+Proof.
+  intros W H. unfold strip_tmux_status.
+  exact (strip_with_status l s W [] (S (length s)) eq_refl H (Nat.lt_succ_diag_r _)).
+Qed.
+
 (* bytes that the noise never introduces: '#' and CR *)
 Definition no_hash_cr (l : list byte) : bool := forallb (fun b => negb (b =? HASH) && negb (b =? CR)) l.
 
